@@ -288,9 +288,9 @@ func c18Reserved() []Finding {
 
 func init() {
 	mc.Register(&mc.Check{
-		Prop: "C18",
-		Rule: "scope trees root > s1 > s2 > s3 with every combination of {cancellable context with a value, nil, plain context with a value} per level (27) x {positional, In-struct (value and pointer)} consumers x 2 resolution orders; services of every lifetime (singleton, scoped, transient, scoped initializer, transient group member, nested transient-inside-scoped) take Context / Scope / Provider; every recorded constructor argument and every direct Get of the three built-ins is compared with the scope the resolution was issued on (singletons: the provider's root scope), its Context() and the root provider; context values, FromContext on the scope context and on a derived context, and cancellation propagation are checked per scope; 14 registration routes for the three reserved types must fail and leave the collection unchanged. distinct = canonical observation strings.",
-		Assume: []string{"cancellation is observed synchronously (context.WithCancel semantics)"},
+		Prop:        "C18",
+		Rule:        "scope trees root > s1 > s2 > s3 with every combination of {cancellable context with a value, nil, plain context with a value} per level (27) x {positional, In-struct (value and pointer)} consumers x 2 resolution orders; services of every lifetime (singleton, scoped, transient, scoped initializer, transient group member, nested transient-inside-scoped) take Context / Scope / Provider; every recorded constructor argument and every direct Get of the three built-ins is compared with the scope the resolution was issued on (singletons: the provider's root scope), its Context() and the root provider; context values, FromContext on the scope context and on a derived context, and cancellation propagation are checked per scope; 14 registration routes for the three reserved types must fail and leave the collection unchanged. distinct = canonical observation strings.",
+		Assume:      []string{"cancellation is observed synchronously (context.WithCancel semantics)"},
 		MinOutcomes: 4,
 		Jobs: func(tier string) []mc.Job {
 			return []mc.Job{
